@@ -43,7 +43,7 @@ def run(R, job):
             return r.choice(texts)
         at = {}
         for _ in range(r.choice([0, 0, 1, 2, 3])):
-            at[r.choice(["id", "class", "data-x", "title", "x:y", "a.b"])] = r.choice(avals)
+            at[r.choice(["id", "class", "data-x", "title", "x:y", "a.b", "x__", "y-", "x", "data_a_", "z--"])] = r.choice(avals)
         kids = [tree(d - 1) for _ in range(r.choice([0, 0, 1, 2, 3, 4]))]
         return core.Tag(r.choice(names), *kids, at, _add_ws=r.random() < 0.5)
 
@@ -77,6 +77,15 @@ def run(R, job):
         nontrivial += len(exp) > 3
         if norm(p.ev) != norm(exp):
             fails.append({"input": ctx.describe(t), "indent": ind, "eol": eol, "observed": str(norm(p.ev))[:400], "expected": str(norm(exp))[:400], "markup": s[:400]})
+        else:
+            # the other observation points: str(x) and x.render()['html'] (they work on a tagified copy of the tree)
+            for how, s2 in (("str(x)", str(t)), ("x.render()['html']", t.render()["html"])):
+                p2 = P()
+                p2.feed(s2)
+                p2.close()
+                if norm(p2.ev) != norm(exp):
+                    fails.append({"input": ctx.describe(t), "via": how, "observed": str(norm(p2.ev))[:400], "expected": str(norm(exp))[:400], "markup": s2[:400]})
+                    break
         if len(samples) < 3:
             samples.append({"tree": ctx.describe(t)[:200], "indent": ind, "eol": eol})
         if len(fails) >= 3:
